@@ -214,9 +214,10 @@ CHECKS = {
              "tree histories.",
         ref="DESIGN.md section 3 C20", technique="solver-driven path exploration of the real node.py over symbolic link histories (z3 feasibility + exhaustiveness query) and CrossHair `check` on the same harness"),
     "C13": dict(
-        text="Reduced scope (DESIGN.md section 3 C13): the STRUCTURE of a message -- type OPM/OEM/OMM, KVN or XML, time scale and "
-             "frame, 0..2 maneuvers of either kind in inertial/QSW/TNW axes with or without comment, covariance absent / in the "
-             "state's frame / QSW / TNW, 0..2 user-defined parameters, keplerian block or not, 1..2 ephemerides of 1..3 points with "
+        text="Reduced scope (DESIGN.md section 3 C13): the STRUCTURE of a message -- type OPM/OEM/OMM/TDM, KVN or XML, time scale and "
+             "frame, 0..2 maneuvers of either kind (continuous ones referenced by start/middle/end) in inertial/QSW/TNW axes with or "
+             "without comment, covariance absent / in the state's frame / QSW / TNW / another regular frame, 0..2 user-defined "
+             "parameters, TDM sets of any subset of Range/Azimut/Elevation/Doppler on one or two one-/two-way paths, keplerian block or not, 1..2 ephemerides of 1..3 points with "
              "covariances on the first points, Lagrange or linear interpolation -- is a vector of symbolic integers concretised by "
              "the forking driver through solver feasibility queries; the real dumps()/loads() run on real objects for every "
              "explored configuration (concrete payload with distinct values per slot) and a final query per group proves that "
@@ -225,7 +226,7 @@ CHECKS = {
              "duration, delta-v, frame, comment), interpolation settings, user-defined fields; KVN and XML decode to the same "
              "object; what was read can be written again identically.",
         note="Trusted: z3 for the enumeration/exhaustiveness; the payload is concrete, so this check is exhaustive over message "
-             "structures within the bounds, not over numeric values. Outside: TDM, arbitrary numeric payloads, XSD validity, "
+             "structures within the bounds, not over numeric values. Outside: arbitrary numeric payloads, XSD validity, "
              "non-Earth centres. Date handling of the writers across scale labels is proved under C04.",
         ref="DESIGN.md section 3 C13", technique="solver-enumerated message structures (symbolic choice vector, z3 feasibility + exhaustiveness query) driving the real dumps/loads on real objects"),
     "C14": dict(
